@@ -22,8 +22,9 @@ def all_configs(tier):
     return encspace.core(tier) + [(g, c) for g, c in encspace.groups(tier)]
 
 
-def run_config(group, cfg):
-    """Returns (outcome label, problems)."""
+def run_config(group, cfg, reuse=None):
+    """Returns (outcome label, problems).  reuse: a CodecFeatures object (and its nested
+    VideoParameters) to be edited IN PLACE to this configuration and used for the encode."""
     from vc2_conformance.encoder.exceptions import UnsatisfiableCodecFeaturesError
 
     kw, opts = encspace.split(cfg)
@@ -31,6 +32,14 @@ def run_config(group, cfg):
         cf = encfeat.make_cf(**kw)
     except Exception as e:  # noqa
         return "harness", ["could not build CodecFeatures: %r" % (e,)]
+    if reuse is not None:
+        for k in cf:
+            if k == "video_parameters":
+                for k2 in cf[k]:
+                    reuse[k][k2] = cf[k][k2]
+            else:
+                reuse[k] = cf[k]
+        cf = reuse
     n = encfeat.n_pictures_for(cf, opts["frames"])
     first = opts["first_pic_num"]
     pics = [encfeat.make_picture(cf, opts["content"], None if first is None else (first + k) % M32, k) for k in range(n)]
@@ -68,9 +77,50 @@ def run_config(group, cfg):
     return "ok", problems
 
 
+# -- one CodecFeatures object edited in place between encodes ---------------------------------------
+HISTORY_VARIANTS = [
+    {},
+    {"frame_rate_numer": 30000, "frame_rate_denom": 1001},
+    {"luma_offset": 64, "luma_excursion": 876, "color_diff_offset": 512, "color_diff_excursion": 896},
+    {"mode": "ld"},
+    {"picture_coding_mode": 1, "frame_height": 8},
+    {"color_diff_format_index": 1},
+    {"pixel_aspect_ratio_numer": 12, "pixel_aspect_ratio_denom": 11},
+    {"color_primaries_index": 3, "color_matrix_index": 3, "transfer_function_index": 3},
+    {"frame_width": 12, "frame_height": 8},
+    {"fragment_slice_count": 1},
+    {"top_field_first": False, "source_sampling": 1},
+]
+
+
+def history_cases():
+    base = encspace.core("quick")[0][1]
+    cfgs = [dict(base, **v) for v in HISTORY_VARIANTS]
+    return [(cfgs[i], cfgs[j]) for i in range(len(cfgs)) for j in range(len(cfgs)) if i != j]
+
+
+def run_history(a, b):
+    """Encode configuration a, edit the SAME CodecFeatures object in place into b, encode again."""
+    kw, _ = encspace.split(a)
+    cf = encfeat.make_cf(**kw)
+    label_a, pr = run_config("history", a, reuse=cf)
+    if pr:
+        return label_a, ["first configuration: " + pr[0]]
+    label_b, pr = run_config("history", b, reuse=cf)
+    if pr:
+        return label_b, ["after editing the CodecFeatures object of %r in place into %r: %s" % (a, b, pr[0])]
+    return label_a + "+" + label_b, []
+
+
 def _shard(arg):
     tier, w, n = arg
     t = Tally()
+    for a, b in history_cases()[w::n]:
+        label, problems = run_history(a, b)
+        t.count("history_cases")
+        t.outcome("history_outcome", label)
+        if problems:
+            t.violation("history: %s" % problems[0], {"history": [a, b]})
     cfgs = all_configs(tier)
     for i in range(w, len(cfgs), n):
         group, cfg = cfgs[i]
@@ -104,10 +154,12 @@ def run(ctx):
         "distinct_nontrivial": total.ndistinct("accepted"),
         "rule": "every configuration of each listed product is encoded with the real encoder, serialised with automatic field filling, validated and decoded by the real validator; non-trivial = distinct configurations that were encoded, accepted and whose decoded parameters/numbers were compared",
         "exhaustive": total.n["configs"] == len(cfgs),
-        "bounds": {"product_sizes": sizes, "wavelet_pairs": 49 if ctx.tier == "thorough" else 13, "global_cross_product": "not covered"},
+        "bounds": {"product_sizes": sizes, "wavelet_pairs": 49 if ctx.tier == "thorough" else 13, "global_cross_product": "not covered", "in_place_histories": "%d ordered pairs of one-field variants of the first core configuration, encoded through ONE CodecFeatures object edited in place" % len(history_cases())},
     }
     return total, cov
 
 
 def replay_case(case):
+    if "history" in case:
+        return run_history(*case["history"])[1]
     return run_config(case["group"], case["config"])[1]
